@@ -363,7 +363,23 @@ func everyReturnAfter(fn *ssa.Function, call ssa.Instruction) bool {
 // importPremises runs a sibling property's rule set in a private context and re-reports, under this property's rule
 // name, every obligation of the named families (ok ones as ok, failing ones as failing).
 func importPremises(c *Ctx, w *World, prop string, fn func(*Ctx, *World), families []string, as string) {
+	importPremisesIf(c, w, prop, fn, families, as, nil)
+}
+
+// importPremisesIf: as importPremises, restricted to the obligations whose construct satisfies keep (nil = all).
+func importPremisesIf(c *Ctx, w *World, prop string, fn func(*Ctx, *World), families []string, as string, keep func(construct string) bool) {
+	// a premise of a premise that leads back to a property already being evaluated adds nothing (C07 takes C04.pair,
+	// C04 takes C07.swap): it is skipped, the outer evaluation of that property covers it
+	if prop == c.Property {
+		return
+	}
+	for _, q := range c.importing {
+		if q == prop {
+			return
+		}
+	}
 	sub := newCtx(prop, c.Tier, c.Repo, c.Verif)
+	sub.importing = append(append([]string{}, c.importing...), c.Property)
 	func() {
 		defer func() {
 			if r := recover(); r != nil {
@@ -375,7 +391,7 @@ func importPremises(c *Ctx, w *World, prop string, fn func(*Ctx, *World), famili
 	n := 0
 	for _, o := range sub.Obs {
 		for _, fam := range families {
-			if o.Rule != fam {
+			if o.Rule != fam || (keep != nil && !keep(o.Construct)) {
 				continue
 			}
 			n++
